@@ -382,6 +382,55 @@ func (*schemafier) hashAttribute(att *expr.AttributeExpr, h hash.Hash64) uint64 
 }
 
 func hashAttribute(att *expr.AttributeExpr, h hash.Hash64, seen map[string]*uint64) *uint64 {
+	res := hashAttributeType(att, h, seen)
+	// Attributes that differ in their validations (other than the required
+	// attributes, which are part of the type hash) or in their default value
+	// must not share a schema. This is not part of the value memoized per type
+	// in seen: two attributes of the same type may carry different validations.
+	var sig strings.Builder
+	if v := att.Validation; v != nil {
+		if len(v.Values) > 0 {
+			fmt.Fprintf(&sig, "enum%v;", v.Values)
+		}
+		if v.Format != "" {
+			fmt.Fprintf(&sig, "format:%s;", v.Format)
+		}
+		if v.Pattern != "" {
+			fmt.Fprintf(&sig, "pattern:%s;", v.Pattern)
+		}
+		if v.Minimum != nil {
+			fmt.Fprintf(&sig, "min:%v;", *v.Minimum)
+		}
+		if v.Maximum != nil {
+			fmt.Fprintf(&sig, "max:%v;", *v.Maximum)
+		}
+		if v.ExclusiveMinimum != nil {
+			fmt.Fprintf(&sig, "xmin:%v;", *v.ExclusiveMinimum)
+		}
+		if v.ExclusiveMaximum != nil {
+			fmt.Fprintf(&sig, "xmax:%v;", *v.ExclusiveMaximum)
+		}
+		if v.MinLength != nil {
+			fmt.Fprintf(&sig, "minlen:%d;", *v.MinLength)
+		}
+		if v.MaxLength != nil {
+			fmt.Fprintf(&sig, "maxlen:%d;", *v.MaxLength)
+		}
+	}
+	if att.DefaultValue != nil {
+		fmt.Fprintf(&sig, "default:%v;", att.DefaultValue)
+	}
+	if sig.Len() == 0 {
+		return res
+	}
+	withVal := orderedHash(*res, hashString(sig.String(), h), h)
+	return &withVal
+}
+
+// hashAttributeType computes the part of the hash of att that only depends on
+// its type (and, for objects, on the required attributes). The result is
+// memoized per type in seen, which also breaks recursion.
+func hashAttributeType(att *expr.AttributeExpr, h hash.Hash64, seen map[string]*uint64) *uint64 {
 	t := att.Type
 	if h, ok := seen[t.Hash()]; ok {
 		return h
